@@ -151,6 +151,8 @@ pub fn run_semantic(prop: &str, trace: &Trace, env: &Env, opts: &SemOpts) -> Run
     let mut session_lang: BTreeMap<u8, String> = BTreeMap::new();
     let mut last_t = t0;
     let mut last_slots: BTreeMap<u8, usize> = BTreeMap::new();
+    // the text each session currently holds (spec and rendered lines)
+    let mut last_text: BTreeMap<u8, (TextSpec, Vec<String>)> = BTreeMap::new();
     for (ei, ev) in trace.events.iter().enumerate() {
         let t = ev.clock.base();
         if utc_days(t) != utc_days(last_t) { rep.count("clock.advance_over_midnight"); }
@@ -202,8 +204,38 @@ pub fn run_semantic(prop: &str, trace: &Trace, env: &Env, opts: &SemOpts) -> Run
                 session_env.insert(ev.actor, EnvModel::default());
                 session_lang.insert(ev.actor, lang.clone());
                 last_slots.remove(&ev.actor);
+                last_text.remove(&ev.actor);
             }
-            Op::Checkpoint { .. } => {}
+            Op::Checkpoint { .. } | Op::Nested { .. } => {}
+            Op::SessionLang { lang } => {
+                if w.sessions.contains_key(&ev.actor) {
+                    w.session_set_language(ev.actor, lang);
+                    session_lang.insert(ev.actor, lang.clone());
+                    rep.count("session.language_switch");
+                }
+            }
+            Op::SessionRerun => {
+                // execute_session once more without a new text: a one-line text is evaluated again, at this instant
+                let (line, rendered_line) = match last_text.get(&ev.actor) { Some((ts, rl)) if ts.lines.len() == 1 && rl.len() == 1 && w.sessions.contains_key(&ev.actor) => (ts.lines[0].clone(), rl[0].clone()), _ => continue };
+                let (o, clk) = w.session_rerun(ev.actor, &ev.clock);
+                rep.evaluations += 1;
+                rep.clock_reads += clk.values.len() as u64;
+                rep.mix_obs(&o.short());
+                rep.count("session.rerun_without_new_text");
+                match &o {
+                    CallObs::Unwound(p) => rep.violate("O-model", format!("{}:{}", prop, p.key()), ei, format!("evaluating the session again (text {:?}) panicked: {} at {} in {}", rendered_line, p.msg, p.loc, p.func)),
+                    CallObs::Returned { lines, .. } => {
+                        match (lines.first(), &line) {
+                            (Some(lo), Line::Sem(st)) if lines.len() == 1 => {
+                                let envm = session_env.entry(ev.actor).or_default();
+                                if judge_line(&mut rep, ei, prop, st, &rendered_line, &lo.slot, envm, &w, env, t) { rep.judged += 1; } else { rep.unjudged += 1; }
+                            }
+                            (_, Line::Sem(_)) => rep.violate("O-model", format!("{}:rerun-slot-count", prop), ei, format!("evaluating the one-line session text {:?} again gave {} slots", rendered_line, lines.len())),
+                            _ => { rep.unjudged += 1; }
+                        }
+                    }
+                }
+            }
             Op::Execute { .. } | Op::SessionText { .. } => {
                 let (lang, text, is_session): (String, &TextSpec, bool) = match &ev.op {
                     Op::Execute { lang, text } => (lang.clone(), text, false),
@@ -221,6 +253,7 @@ pub fn run_semantic(prop: &str, trace: &Trace, env: &Env, opts: &SemOpts) -> Run
                 if is_session {
                     match last_slots.get(&ev.actor) { Some(p) if *p > want => rep.count("session.swap_shrink"), Some(p) if *p < want => rep.count("session.swap_grow"), Some(_) => rep.count("session.swap_same"), None => {} }
                     last_slots.insert(ev.actor, want);
+                    last_text.insert(ev.actor, (text.clone(), rendered.clone()));
                 }
                 let (o, clk) = if is_session { w.session_text(ev.actor, &full, &ev.clock) } else { w.execute(&lang, &full, &ev.clock) };
                 rep.evaluations += 1;
